@@ -374,6 +374,26 @@ impl Scenario for Throttle {
         if o.max_outbuf > limit {
             v.push(("throttle:buffer-unbounded".into(), format!("buffered output reached {} bytes at a poll gate; bound for this tuning is {} (high {} + 3 channels x (bound {}+1) x 48 + 64)", o.max_outbuf, limit, high, bound)));
         }
+        // the throttle itself, read off the I/O thread's own log: after a poll gate with more
+        // than `high` bytes buffered, nothing is taken from the queue of any channel but channel
+        // 0 before the next gate (that is what bounds the buffer and blocks the publishers).
+        // Where between `low` and `high` the channels are served again is left to the client;
+        // that they are served again is the absence of a deadlock.
+        {
+            use amiquip::verif::ChanKind;
+            use vh::sim::world::IoEvent;
+            let mut above = false;
+            for e in &o.io_events {
+                match e {
+                    IoEvent::Gate { outbuf_len, .. } => above = *outbuf_len > high,
+                    IoEvent::Recv { channel_id, kind: ChanKind::Main, .. } if *channel_id != 0 && above => {
+                        v.push(("throttle:served-above-high-water".into(), format!("the I/O thread took a message from channel {} in a wake-up that started with more than the high-water mark ({}) buffered", channel_id, high)));
+                        break;
+                    }
+                    _ => {}
+                }
+            }
+        }
         let (envs, rest) = wire_frames(o);
         if rest != 0 {
             v.push(("throttle:partial-frame".into(), format!("{} trailing bytes", rest)));
@@ -462,7 +482,12 @@ impl Scenario for Tuned {
         if tier == "thorough" {
             pairs.extend([((65535, u32::MAX, 65535), (2, 4096, 1)), ((2, 4096, 1), (65535, u32::MAX, 65535)), ((0, 131072, 1), (3, 0, 2)), ((4, 0, 2), (0, 4104, 0))]);
         }
-        pairs.into_iter().map(|(c, s)| json!({"client": [c.0, c.1, c.2], "server": [s.0, s.1, s.2]})).collect()
+        let mut v: Vec<Value> = pairs.into_iter().map(|(c, s)| json!({"client": [c.0, c.1, c.2], "server": [s.0, s.1, s.2]})).collect();
+        // the server falls silent: it is declared dead after twice the *announced* interval,
+        // whichever side asked for the lower value
+        v.push(json!({"client": [0, 0, 60], "server": [3, 4096, 1], "silent": true}));
+        v.push(json!({"client": [2, 8192, 2], "server": [0, 0, 60], "silent": true}));
+        v
     }
     fn bound(&self, tier: &str, _p: &Value) -> usize {
         if tier == "thorough" {
@@ -483,7 +508,7 @@ impl Scenario for Tuned {
         let hb = (c[2] as u16).min(s[2] as u16) as u64;
         // the server keeps talking so that it is never declared dead
         let hbf = frame_bytes(&amq_protocol::frame::AMQPFrame::Heartbeat(0));
-        if hb > 0 {
+        if hb > 0 && p["silent"] != true {
             for i in 1..=8u64 {
                 broker.timed.push_back((i * hb * 500 * MS, hbf.clone()));
             }
@@ -569,6 +594,19 @@ impl Scenario for Tuned {
                 v.push(("tuned:frame-above-frame-max".into(), format!("body frame of {} bytes on the wire, negotiated frame_max {}", e.wire_len(), fmax)));
                 break;
             }
+        }
+        if p["silent"] == true {
+            let hn = hb as u64 * 1000 * MS;
+            let last_read = o.read_times.iter().map(|(t, _)| *t).max().unwrap_or(0);
+            let want = last_read + 2 * hn;
+            match o.io_exit_time_ns {
+                Some(d) if d + 5 * MS >= want && d <= want + 10 * MS => {}
+                other => v.push(("tuned:silence-not-by-announced-interval".into(), format!("last inbound byte at {} ms, announced heartbeat {} s: the connection should end at {} ms, ended at {:?} ms", last_read / MS, hb, want / MS, other.map(|d| d / MS)))),
+            }
+            if main.last().map(|s| s.as_str()) != Some("close -> Err(MissedServerHeartbeats)") {
+                v.push(("tuned:close".into(), format!("{:?}", main)));
+            }
+            return v;
         }
         // heartbeat timing by the announced interval
         let t0 = main.iter().find_map(|l| l.strip_prefix("idle from ").and_then(|x| x.parse::<u64>().ok())).unwrap_or(0) * MS;
